@@ -5,7 +5,7 @@
 From Coq Require Import QArith ZArith List Bool Arith.
 Import ListNotations.
 From PV Require Import Lib.WLS BSpline.Eval BSpline.EvalProofs BSpline.CoxDeBoor BSpline.BasisProofs
-  BSpline.KnotsProofs BSpline.PermProofs BSpline.ActionProofs C08.Model C08.Proofs.
+  BSpline.KnotsProofs BSpline.PermProofs BSpline.ActionProofs Generated.BSpline BSpline.GenBridge C08.Model C08.Proofs.
 Open Scope Q_scope.
 
 (* ---- the basis: non-negative, sums to one (every order, every knot vector, loop invariant of BSPLVN) *)
@@ -179,6 +179,81 @@ Print Assumptions C08_checker_splineq_is_spline.
 Theorem C08_checker_splineq_left_is_spline_left : forall t c k x, splineq_left t c k x == spline_left t c k x.
 Proof. exact splineq_left_eq. Qed.
 Print Assumptions C08_checker_splineq_left_is_spline_left.
+
+(* ---- the reference models are built from exactly the index / comparison / constant arithmetic that translate/c08.py
+   extracts from bspline.py on every run (Generated/BSpline.v) *)
+Theorem C08_generated_knots : forall s e p b xs k sp nb startx rangex xmin xmax,
+  raw_bkpt (OBkspace s) xs = equispaced (bs_nbkpts_of_bkspace (lmaxQ xs - lminQ xs) s) (lminQ xs) (lmaxQ xs - lminQ xs) /\
+  equispaced nb startx rangex =
+    map (fun i => Qred (bs_equi_point i (bs_nbkpts_clamp nb) startx rangex)) (seq 0 (bs_nbkpts_clamp nb)) /\
+  raw_bkpt (OEveryn e) xs =
+    (let nx := length xs in let nb := bs_everyn_nb nx e in
+     if bs_everyn_single nb then [nthQ xs 0] else map (fun i => nthQ xs (bs_everyn_pos nx nb i)) (seq 0 nb)) /\
+  raw_bkpt (OPlaced p) xs =
+    (let startx := lminQ xs in let rangex := lmaxQ xs - startx in
+     let w := filter (bs_placed_keep startx rangex) p in
+     if bs_placed_too_few (length w) then [Qred startx; Qred (rangex + startx)] else w) /\
+  (bs_cover_independent = true /\
+   cover b xmin xmax =
+   match b with
+   | [] => []
+   | a :: r =>
+       let imin := argminQ r 1 0 a in
+       let imax := argmaxQ r 1 0 a in
+       let b1 := if bs_cover_lo xmin (nthQ b imin) then set_nth imin xmin b else b in
+       if bs_cover_hi xmax (nthQ b1 imax) then set_nth imax xmax b1 else b1
+   end) /\
+  pad b k sp =
+    (let spc := if bs_pad_single (length b) then sp else bs_pad_spacing (nthQ b 0) (nthQ b 1) sp in
+     let idx := seq bs_pad_first (bs_pad_stop k - bs_pad_first) in
+     map (fun i => Qred (bs_pad_lo (nthQ b 0) spc (inject_Z (Z.of_nat i)))) (rev idx) ++ b ++
+     map (fun i => Qred (bs_pad_hi (nthQ b (length b - 1)) spc (inject_Z (Z.of_nat i)))) idx) /\
+  length (seq bs_pad_first (bs_pad_stop k - bs_pad_first)) = (k - 1)%nat.
+Proof.
+  exact (fun s e p b xs k sp nb startx rangex xmin xmax =>
+    conj (gen_raw_bkspace s xs) (conj (gen_equispaced nb startx rangex) (conj (gen_raw_everyn e xs)
+    (conj (gen_raw_placed p xs) (conj (gen_cover b xmin xmax) (conj (gen_pad b k sp) (gen_pad_count k))))))).
+Qed.
+Print Assumptions C08_generated_knots.
+
+Theorem C08_generated_intrv : forall f gb k xs n x i,
+  intrv gb k xs = intrv_walk gb (bs_intrv_n (length gb) k) xs (bs_intrv_start k) /\
+  advance (S f) gb n x i =
+    (if bs_intrv_advance x (nthQ gb (bs_intrv_next i)) i n then advance f gb n x (bs_intrv_next i) else i).
+Proof. exact (fun f gb k xs n x i => conj (gen_intrv gb k xs) (gen_advance f gb n x i)). Qed.
+Print Assumptions C08_generated_intrv.
+
+Theorem C08_generated_bsplvn : forall s j k l gb x v dp dmr a p m prev r,
+  (bs_bsplvn_continue j k = true <-> (j < k - 1)%nat) /\
+  bsplvn_loop (S s) j gb x l v dp dmr =
+    (let dp' := dp ++ [bs_deltap (nthQ gb (bs_ipj l j)) x] in
+     let dmr' := bs_deltam (nthQ gb (bs_imj l j)) x :: dmr in
+     bsplvn_loop s (S j) gb x l (pass v dp' dmr' 0) dp' dmr') /\
+  pass (a :: v) (p :: dp) (m :: dmr) prev =
+    Qred (bs_vnew (Qred (bs_vm a p m)) p prev) :: pass v dp dmr (Qred (bs_vmprev (Qred (bs_vm a p m)) m)) /\
+  (bs_dm_index j r = (j - r)%nat /\ bs_inner_count j = S j).
+Proof.
+  exact (fun s j k l gb x v dp dmr a p m prev r =>
+    conj (gen_bsplvn_steps j k) (conj (gen_bsplvn_loop s j gb x l v dp dmr)
+    (conj (gen_pass_step a v p dp m dmr prev) (gen_bsplvn_indices j r)))).
+Qed.
+Print Assumptions C08_generated_bsplvn.
+
+Theorem C08_generated_action_value : forall s k n nx bb lo hi gb x,
+  ((1 <= k)%nat -> bs_action_slot (Z.of_nat (s + (k - 1))) (Z.of_nat k) = Z.of_nat s) /\
+  (bs_action_upper_default = (-1)%Z /\ bs_action_nseg n k = (n - k + 1)%nat /\
+   (forall nbkpt, bs_action_too_few nbkpt k = (nbkpt <? 2 * k)%nat)) /\
+  ((bb < nx)%nat -> bs_action_lower_pos (Z.of_nat nx) (Z.of_nat bb) = Z.of_nat (nx - 1 - bb)) /\
+  (bs_value_ict_nonempty (bs_value_ict hi lo) = (lo <=? hi)%Z /\ bs_value_slice_stop hi = (hi + 1)%Z) /\
+  in_range_mask gb k x =
+    negb (bs_value_outside x (nthQ gb (bs_value_lo_index k)) (nthQ gb (bs_value_hi_index (bs_value_n (length gb) k)))) /\
+  bs_value_unsort_is_scatter = true.
+Proof.
+  exact (fun s k n nx bb lo hi gb x =>
+    conj (gen_action_slot s k) (conj (gen_action_defaults n k) (conj (gen_action_lower_pos nx bb)
+    (conj (gen_value_ict lo hi) (conj (gen_in_range gb k x) gen_value_unsort))))).
+Qed.
+Print Assumptions C08_generated_action_value.
 
 (* non-vacuity: a cubic knot vector built by the nbkpts option satisfies the hypotheses; basis sums to one *)
 Example C08_example :
